@@ -437,6 +437,36 @@ def fwdref_cache(rep, prefix='C14'):
                     where=f'a getter that raises ({getattr(v, "cls", v)}) leaves no referent behind: a later query must validate (and fail) again, not be answered from the table')
         if not n: rep.error(f'{prefix}.fwdref.{short}: no path')
 
+ABCREG_SRC = """
+import abc, sys
+from beartype.door import is_subhint, is_bearable, TypeHint
+def world():
+    class Abc(abc.ABC): pass
+    class Impl: pass
+    return Abc, Impl
+A1, I1 = world(); A2, I2 = world()
+early = is_subhint(I1, A1)                 # asked BEFORE the registration (False: not yet a virtual subclass)
+A1.register(I1); A2.register(I2)
+later_asked_before = is_subhint(I1, A1)   # the same question again
+later_fresh = is_subhint(I2, A2)          # the same question about an identical, never-queried twin
+print('before registration:', early, '; after, asked before:', later_asked_before, '; after, never asked:', later_fresh, '; issubclass:', issubclass(I1, A1), '; is_bearable:', is_bearable(I1(), A1))
+bad = later_asked_before != later_fresh
+bad |= (TypeHint(list[I1]) <= TypeHint(list[A1])) != (TypeHint(list[I2]) <= TypeHint(list[A2]))
+sys.exit(1 if bad else 0)
+"""
+def abc_register(rep):
+    """bounded history (NOT counted as proved): an is_subhint / TypeHint comparison asked once is not remembered across a change of the
+    class graph (ABC registration): the same question about a never-queried identical twin must get the same answer"""
+    import subprocess, sys, os
+    from pyvc import REPO
+    env = dict(os.environ); env['PYTHONPATH'] = REPO
+    p = subprocess.run([sys.executable, '-c', ABCREG_SRC], capture_output=True, text=True, timeout=120, env=env, cwd='/')
+    if p.returncode not in (0, 1): rep.error('C14 abc_register harness: ' + (p.stdout + p.stderr)[-600:]); return
+    if p.returncode == 1:
+        rep.add('C14.history.is_subhint_across_abc_registration', 'refuted', backend='runtime-contract', where=p.stdout.strip()[-300:], solver_output='bounded run-time contract in a fresh interpreter (not a proof)',
+                replay=dict(reproduced=True, detail=p.stdout.strip()[-300:]), replay_script=f"import subprocess\nenv = dict(os.environ); env['PYTHONPATH'] = {REPO!r}\np = subprocess.run([sys.executable, '-c', {ABCREG_SRC!r}], env=env, cwd='/')\nsys.exit(p.returncode)\n")
+    rep.bounded.append(dict(kind='is_subhint asked before / after an ABC registration vs a never-queried twin (bounded stand-in, NOT counted as proved)', scenarios=2, failing=int(p.returncode == 1)))
+
 REPR_SRC = """
 from typing import Annotated
 from beartype.vale import Is
@@ -499,7 +529,7 @@ def main(tier, seed):
     rep = report.Report('C14', tier, seed, 'proof', f'./check C14 --tier {tier}')
     for fn, args in ((memoiser, ('callable_cached', 'beartype/_util/cache/utilcachecall.py', 'callable_cached', '_callable_cached', False)),
                      (memoiser, ('method_cached_arg_by_id', 'beartype/_util/cache/utilcachecall.py', 'method_cached_arg_by_id', '_method_cached', True)),
-                     (cache_unbounded, ()), (structural, ()), (redefinition, ()), (cacheable_flag, ()), (forward_refs, ()), (coerce_transparent, ()), (fwdref_cache, ())):
+                     (cache_unbounded, ()), (structural, ()), (redefinition, ()), (cacheable_flag, ()), (forward_refs, ()), (coerce_transparent, ()), (fwdref_cache, ()), (abc_register, ())):
         try: fn(rep, *args)
         except Exception: rep.error(f'C14 {fn.__name__}{args[:1]}: ' + traceback.format_exc()[-1800:])
     files = ['beartype/_util/cache/utilcachecall.py', 'beartype/_util/cache/map/utilmapunbounded.py', 'beartype/_util/cache/utilcacheclear.py', 'beartype/_decor/_type/decortype.py']
